@@ -22,6 +22,7 @@ type verdict struct {
 	first  *evid.Violation
 	labels []string
 	seen   map[string]bool
+	infra  error // the case itself is unusable (e.g. a hand-written script that does not parse)
 }
 
 func (vd *verdict) fail(v *evid.Violation) {
@@ -153,6 +154,9 @@ func Check(c Case, ev *evid.Collector, cobra CobraFn) (*evid.Violation, *Infra) 
 
 	// ---- clause (4): markers -------------------------------------------------
 	checkMarkers(c, obs, vd)
+	if vd.infra != nil {
+		return nil, &Infra{vd.infra}
+	}
 
 	// ---- clause (3): read-only scripts behave as in a normal run -------------
 	if c.ReadOnly && vd.first == nil && len(obs.Offenses) == 0 {
@@ -264,6 +268,10 @@ func checkMarkers(c Case, obs *Obs, vd *verdict) {
 			continue
 		}
 		started := reached >= 0 || end
+		if !started && so.Failed && (strings.Contains(so.Err, "syntax error") || strings.Contains(so.Err, "parse error")) {
+			vd.infra = fmt.Errorf("script %s does not parse: %s", scriptName(c, si), so.Err)
+			return
+		}
 		if !started {
 			sig := "script-never-started"
 			if anyFailedBefore {
